@@ -58,19 +58,24 @@ func (s *Scenario) addVRF(rng *rand.Rand, profile string) {
 		vp.Interval = 4
 	}
 	vp.Delay = 1 + rng.Int64N(vp.Interval/2)
-	switch k := rng.IntN(8); k {
-	case 0:
+	an := len(s.AllNodes())
+	switch k := rng.IntN(12); {
+	case k == 0:
 		vp.Threshold, vp.ThresholdKind = 1, "one"
-	case 1:
+	case k == 1:
 		vp.Threshold, vp.ThresholdKind = 2, "two"
-	case 2, 3:
+	case k == 2:
 		vp.Threshold, vp.ThresholdKind = uint64(max(1, (gn+1)/2)), "half-of-genesis-nodes"
-	case 4:
-		vp.Threshold, vp.ThresholdKind = uint64(max(1, gn*3/4)), "three-quarters-of-genesis-nodes"
-	case 5, 6:
+	case k < 5:
 		vp.Threshold, vp.ThresholdKind = uint64(max(1, gn)), "all-genesis-nodes"
+	case k < 9:
+		// Reached when nearly every node the scenario knows is registered and proves: an epoch in which
+		// a few nodes skip has a weak alpha although most committee members proved.
+		vp.Threshold, vp.ThresholdKind = uint64(max(1, an*3/4)), "three-quarters-of-all-nodes"
+	case k < 11:
+		vp.Threshold, vp.ThresholdKind = uint64(max(1, an)), "all-nodes"
 	default:
-		vp.Threshold, vp.ThresholdKind = uint64(3*gn+40), "more-than-all-nodes"
+		vp.Threshold, vp.ThresholdKind = uint64(3*an+40), "more-than-all-nodes"
 	}
 	vp.ProveGas = []uint64{100, 1000, 1000}[rng.IntN(3)]
 	s.P.WithVRF, s.P.VRF = true, vp
